@@ -77,7 +77,7 @@ METHODS = [b"x", b'"x /b"', b'"x y"', b'"x "', b'" x"', "é".encode(), b'"a\xff"
 RPC_PATHS = [b"/a", b'"/b /a"', b'"/a b"', b"/r\xff", b"/r\xfe", b'"/y /a"']
 NAMES = [b"@a", b"@a_b", b"@A", b"@a1", "@é".encode(), b"@a\xff", b"@a\xfe", b'"@a b"', b"@a-b", b"@a.b", b"@", b"@@a"]
 TEXTS = [b'"T"', '"é"'.encode(), b'"a\\"b"', b'"a\\\\b"', b'"a\xff"', b'"a\xe2\x80 b"', b'"<&>"', b'"\xe2\x80\xa8"', b'"a\tb"',
-         b"T1", b'""', b'"a // b"']
+         b"T1", b'""', b'"a // b"', b'"\\u003cb\\u003e"', b'"a \\u0026 b"', b'"<b> \\u003e"', b'"\\\\u003c"']
 J = b"JSIGHT 0.3\n"
 # (method, path) pairs whose "protocol method path" strings coincide or nearly do
 COLLISION_CANDIDATES = [
@@ -122,6 +122,12 @@ def stress_documents(rng, quick):
         docs.append(("info", J + b"INFO\n  Description\n    " + t + b"\nGET /a // " + t + b"\n  200 any // " + t + b"\n"))
     docs.append(("info", J))
     docs.append(("info", J + b"GET /a\n  200 any\n"))
+    # a declared tag whose name is also the automatic name of a path: named through Tags by one method, met as the path tag by another
+    for order in ([0, 1, 2], [0, 2, 1], [1, 0, 2], [2, 0, 1], [1, 2, 0], [2, 1, 0]):
+        parts = [b"TAG @cats // Cats\n", b"GET /kittens\n  Tags @cats\n  200 any\n", b"GET /cats\n  200 any\nURL /cats/x\n  POST\n    200 any\n"]
+        docs.append(("tags", J + b"".join(parts[i] for i in order)))
+        parts2 = [b"TAG @cats\n  Description\n    all cats\n", b"URL /r\n  Protocol json-rpc-2.0\n  Method m\n    Tags @cats\n", b"PUT /cats/{id}\n  200 any\n"]
+        docs.append(("tags", J + b"".join(parts2[i] for i in order)))
     # a request or response without a body at the k-th of n interactions (every validation loop must reach every interaction)
     good = [b"  200 any\n", b"  200\n    Body any\n", b"  Request any\n  200 any\n", b"  201 @t\n", b"  200 any\n  404 any\n"]
     lacking = [b"  200\n", b"  200\n    Headers\n      {}\n", b"  Request\n    Headers\n      {}\n  200 any\n", b"  200 any\n  404\n    Headers\n      {}\n",
